@@ -84,7 +84,7 @@ class Net2d(nn.Module):
                 dw = st.get('dw', False)
                 co = c if dw else st.get('cout', 4)
                 k = st.get('k', 3)
-                self.blocks[f's{i}'] = nn.Conv2d(c, co, k, stride=st.get('s', 1), padding=st.get('p', k // 2),
+                self.blocks[st.get('alias', f's{i}')] = nn.Conv2d(c, co, k, stride=st.get('s', 1), padding=st.get('p', k // 2),
                                                  groups=c if dw else 1, bias=st.get('bias', True))
                 if st.get('bn'):
                     self.blocks[f's{i}bn'] = nn.BatchNorm2d(co)
@@ -142,7 +142,7 @@ class Net2d(nn.Module):
         for i, st in enumerate(self.prog['stages']):
             op = st['op']
             if op == 'conv':
-                x = self.blocks[f's{i}'](x)
+                x = self.blocks[st.get('alias', f's{i}')](x)
                 if f's{i}bn' in self.blocks:
                     x = self.blocks[f's{i}bn'](x)
                 if f's{i}act' in self.blocks:
